@@ -511,6 +511,29 @@ class _Parallel(Client):
             return f, t
         if isinstance(test, ast.Name) and test.id in self.flag_names:
             return ((True, pend),), ((False, pend),)
+        # append fast path: relation of the key to the last stored key / emptiness of the storage
+        if isinstance(test, ast.Compare) and len(test.ops) == 1:
+            l, r, op = test.left, test.comparators[0], test.ops[0]
+
+            def is_last(e):
+                return isinstance(e, ast.Subscript) and self._arr(e.value) == "k" and const_value(e.slice) == -1
+
+            def is_key(e):
+                return isinstance(e, ast.Name) and e.id == self.key_param
+            if (is_key(l) and is_last(r)) or (is_last(l) and is_key(r)):
+                T, F = [], []
+                for rel, (kv, lv) in (("gt", (1, 0)), ("eq", (0, 0)), ("lt", (0, 1))):
+                    a, b = (kv, lv) if is_key(l) else (lv, kv)
+                    res = {ast.Lt: a < b, ast.LtE: a <= b, ast.Gt: a > b, ast.GtE: a >= b, ast.Eq: a == b, ast.NotEq: a != b}.get(type(op))
+                    if res is None:
+                        return (state,), (state,)
+                    st2 = (present, pend + (("rel", rel),))
+                    (T if res else F).append(st2)
+                return T, F
+            if isinstance(l, ast.Call) and src(l.func) == "len" and l.args and self._arr(l.args[0]) == "k" and const_value(r, None) == 0 \
+                    and isinstance(op, (ast.Eq, ast.NotEq, ast.Gt)):
+                e = (present, pend + (("rel", "empty"),))
+                return ((e,), (state,)) if isinstance(op, ast.Eq) else ((state,), (e,))
         return (state,), (state,)
 
     def _arr(self, e) -> Optional[str]:
@@ -551,6 +574,16 @@ class _Parallel(Client):
             arr = self._arr(node.func.value)
             if arr and node.func.attr == "insert" and len(node.args) == 2:
                 return (self._op(arr, "insert", node.args[0], node.lineno, state),)
+            if arr == "k" and node.func.attr == "append" and len(node.args) == 1 and isinstance(node.args[0], ast.Name) \
+                    and node.args[0].id == self.key_param and self.vs is None:
+                present, pend = state
+                rels = {p[1] for p in pend if p[0] == "rel"}
+                self.ops += 1
+                if not rels or not rels <= {"gt", "empty"}:
+                    self.problems.append((node.lineno, f"`{src(node)}` appends the key on a path where it is not known to be greater "
+                                                       f"than the last stored key (relation: {sorted(rels) or 'unknown'}): an equal key is "
+                                                       f"stored twice / a smaller one breaks the order"))
+                return ((present, tuple(p for p in pend if p[0] != "rel")),)
             if arr and node.func.attr in ("append", "pop", "remove", "extend", "clear", "sort", "reverse"):
                 self.problems.append((node.lineno, f"`{src(node)}`: operation on one of the parallel arrays that is not "
                                                    f"index-aligned"))
@@ -595,7 +628,7 @@ def r4_parallel(prog, rep: Report, sf: SortedFacts):
                           + "".join(f"; {p[1]}" for p in client.problems),
                           scenario="m[k] returns the value of a neighbouring key")
                 continue
-            leftovers = sorted({p for s in finals for p in s[1]})
+            leftovers = sorted({p for s in finals for p in s[1] if p[0] != "rel"})
             msgs = [p[1] for p in client.problems]
             if leftovers:
                 msgs.append(f"operations on one array without the mirror operation on the other: {leftovers}")
